@@ -520,7 +520,7 @@ def replay_witnesses(ck, cfgs, opts_by_cfg=None):
                                                                    "event": ev, "steps": w["steps"], "mods": w["mods"]})
 
 
-def replay_known(ck, cfg="hook"):
+def replay_known(ck, cfg="hook", opts=None):
     """the pinned witnesses of the open known findings of this property: a behavioural finding is
     keyed on its exact witness input; it is reported as KNOWN-FINDING while the witness still
     disagrees with the reference model, and as stale (still exit 0) once it no longer does"""
@@ -534,7 +534,8 @@ def replay_known(ck, cfg="hook"):
         progs.append({"name": w["name"], "steps": [tuple(s) for s in w["steps"]], "mods": [tuple(m) for m in w["mods"]],
                       "natives": w.get("natives")})
     models = modelcheck.run_models(progs)
-    cases = [mk_case("k%d" % i, p["steps"], {"gc": "always", "quarantine": 1, "natives": 1 if p.get("natives") else 0}, p["mods"])
+    base = opts or {"gc": "always", "quarantine": 1}
+    cases = [mk_case("k%d" % i, p["steps"], dict(base, natives=1 if p.get("natives") else 0), p["mods"])
              for i, p in enumerate(progs)]
     results = run_batch(cfg, cases, timeout=300)
     for k, p, m, res in zip(entries, progs, models, results):
